@@ -48,3 +48,8 @@ package dynamiccache
 //@   loop 1 invariant forall g GVK :: (g in c.informerReferences) ==> loopentry(g in c.informerReferences)
 //@   loop 1 invariant forall g GVK :: visited(g) && (g in c.informerReferences) ==> !(ownerRef in c.informerReferences[g])
 //@   ensures [C12] result == nil ==> (forall g GVK :: (g in c.informerReferences) ==> !(ownerRef in c.informerReferences[g]))
+
+// an informer is shared by all owners of a kind and lives until the last of them frees it: its list/watch calls must
+// not be bound to the context of the Watch call that happened to start it
+//@ func package-operator.run/internal/dynamiccache.(*InformerMap).addInformerToMap
+//@   at createListWatch#1 assert [C12] arg0 == ctxBackground()
